@@ -129,3 +129,26 @@ Proof.
   cbv [vec_mat mat_vec mtranspose mcol mrow vdot vdot_acc map seq flat_map app nth firstn skipn Nat.mul Nat.add]. sR.
   list_eq.
 Qed.
+
+(* ---------------- the launching kernel contact_force_kernel ---------------- *)
+(* one task (request slot tid) of the translated kernel: it writes nothing when the requested id is
+   >= nacon, otherwise exactly one store out[tid] = contact_force_fn(.., world of THAT CONTACT, that contact, ..):
+   the world is contact_worldid[contact_ids[tid]] - not the slot's index, not the slot's world *)
+From VF Require Import Base.Kernel.
+From Coq Require Import String.
+Lemma contact_force_kernel_task
+  tid opt_cone frame fric cdim cadr cworld adh efc_force njmax nacon ids tow out orc :
+  @k_contact_force_kernel R ScalarR tid opt_cone frame fric cdim cadr cworld adh efc_force njmax nacon ids tow out orc
+  = if (ids tid >=? nacon 0%Z)%Z then nil
+    else [mkW "out"%string [tid] KSet
+            (VV (cf opt_cone frame fric cdim cadr adh efc_force njmax nacon (cworld (ids tid)) (ids tid) tow))].
+Proof. unfold k_contact_force_kernel, cf. destruct (ids tid >=? nacon 0%Z)%Z; reflexivity. Qed.
+
+(* consequence: the value stored for a slot depends on the slot only through the requested id
+   (permuted / reversed / repeated request lists give the same wrench for the same contact) *)
+Lemma contact_force_kernel_request_only
+  tid tid' opt_cone frame fric cdim cadr cworld adh efc_force njmax nacon ids ids' tow out out' orc orc' :
+  ids tid = ids' tid' ->
+  map (fun w => w_val w) (@k_contact_force_kernel R ScalarR tid opt_cone frame fric cdim cadr cworld adh efc_force njmax nacon ids tow out orc)
+  = map (fun w => w_val w) (@k_contact_force_kernel R ScalarR tid' opt_cone frame fric cdim cadr cworld adh efc_force njmax nacon ids' tow out' orc').
+Proof. intros E. rewrite !contact_force_kernel_task, E. destruct (ids' tid' >=? nacon 0%Z)%Z; reflexivity. Qed.
